@@ -62,6 +62,7 @@ class Model:
         self.fconstraints = []  # (function, constraint) declared on functions by steps
         self.lmis = []         # PSDMatrix objects added to the pep (in the order added)
         self.lmis_unadded = []
+        self.flmis = []        # (function, PSDMatrix) declared on a function with Function.add_psd_matrix
         self.metrics = []
         self.params = {}
         self.partition = None
@@ -234,6 +235,18 @@ def build(env, spec):
         if spec.get('lmi_cap', False):
             pep.add_constraint(t <= 1)
             m.constraints.append(pep.list_of_constraints[-1])
+    if spec.get('function_lmi'):
+        # an LMI declared on a function (not on the problem), optionally next to a function-level scalar constraint
+        tf = Expression()
+        m.exprs['tf'] = tf
+        af = env.real("lf")
+        target = F if spec.get('function_lmi') == 'composite' else f
+        target.add_psd_matrix([[e, tf], [tf, af]])
+        m.flmis.append((target, target.list_of_psd[-1]))
+        if spec.get('function_lmi_with_constraint'):
+            cf = (tf <= 1)
+            target.add_constraint(cf)
+            m.fconstraints.append((target, cf))
     if spec.get('lmi_unadded') and not spec.get('lmi_unadded_first'):
         m.lmis_unadded.append(PSDMatrix([[e, 0], [0, 1]]))
     if pending:
@@ -266,7 +279,7 @@ def default_values():
     """generic input values used by replays when the counter-model's own parameters give an SDP the real numeric
     solver cannot solve (the structural choices of the counterexample are kept)"""
     base = dict(mu=0.1, L=1.0, M=1.0, D=1.0, beta=1.0, rho=0.5, R=1.0, w_h=1.0, h_mu=0.1, h_L=2.0, h_M=1.0, h_D=1.0,
-                h_beta=1.0, h_rho=0.5, R2=2.0, lnew=2.0, tol=1e-4, a_before=0.5, a_after=-0.5, L0=1.0, L1=2.0)
+                h_beta=1.0, h_rho=0.5, lf=2.0, R2=2.0, lnew=2.0, tol=0.05, reg=1e-3, a_before=0.5, a_after=-0.5, L0=1.0, L1=2.0)
     for i in range(4):
         base.update({"gamma%d" % i: 0.5, "eps%d" % i: 0.1, "c%d" % i: 1.0, "d%d" % i: 0.5, "l%d" % i: 2.0})
     alt = dict(base)
